@@ -223,8 +223,9 @@ theorem applyConditional_shots (hsem : GateSemOK α n valid) {s : VecState α} {
     · simp only [hb]; rw [hn]; exact hcollen _
   have hp := ranges_partition s.counts control ranges hr (by rw [hwf.counts_sum, hlen])
   rw [shotStates, cols_ofColumns _ _ _ _ (by simp [mapM_option_length _ _ hc]) hcl, hc']
-  dsimp only
-  rw [expand_pieces, hp, shotStates, cols]
+  show expand (ranges.map (·.2.1)) _ = _
+  rw [expand_pieces (fun ib : Nat × Bool => if ib.2 = true then gateOn n g bits (s.column ib.1) else s.column ib.1)
+    ranges, hp, shotStates, cols]
   have := shotCols_map s.column s.counts 0
   rw [← List.range_eq_range'] at this
   rw [← this, List.zip_eq_zipWith, List.map_zipWith, List.zipWith_map_left]
@@ -285,11 +286,11 @@ theorem resetAll_shots (s : VecState α) :
   · intro row h
     simp only [VecState.resetAll, List.mem_map] at h
     obtain ⟨r, _, rfl⟩ := h
-    simp
-  · simp only [shotStates, cols, VecState.resetAll, List.length_cons, List.length_nil, List.range_one,
-      List.map_cons, List.map_nil, expand, List.append_nil]
-    congr 1
-    simp [VecState.column, ket0, List.map_map]
+    simp [VecState.resetAll]
+  · have hc : cols (VecState.resetAll s) = [ket0 s.nrBits] := by
+      simp [cols, VecState.resetAll, VecState.column, ket0, List.map_map]
+    rw [shotStates, hc]
+    simp [VecState.resetAll, expand]
 
 end
 end Q1t.Sim
